@@ -3,8 +3,11 @@
   (Gen/SharedAccess.lean):
 
   * package-level variables are written only during package initialisation;
-  * the mutable fields of singleWarcFileWriter are written only by methods that run under writeLock: a method runs
-    under the lock if no call path from outside the type reaches it without passing a method that takes the lock;
+  * the mutable fields of singleWarcFileWriter (those some method assigns) are written AND read only by methods that run
+    under writeLock: a method runs under the lock if no call path from outside the type reaches it without passing a
+    method that takes the lock; a method that takes the lock but has statements outside the locked region (before
+    Lock(), after an explicit Unlock()) appears twice: `m` for the locked part, `m!` for the rest, and `m!` is entered
+    by whoever enters `m`;
   * calls that the callee's documentation declares not thread-safe happen only in `init`;
   * the name generator and the WarcFileWriter do not assign their own fields in methods that workers/callers run
     concurrently (the serial number is bumped atomically);
@@ -15,6 +18,7 @@ namespace Gowarc.Discipline
 structure Table where
   pkgVarWrites : List (String × String × String)
   writerFieldWrites : List (String × String)
+  writerFieldReads : List (String × String)
   lockHolders : List String
   innerCalls : List (String × String)
   outerCalls : List (String × String)
@@ -44,6 +48,7 @@ def RaceFree (t : Table) : Bool :=
   t.pkgVarWrites.all (fun w => w.2.2 == "init") &&
   Closed t (unlocked t) &&
   t.writerFieldWrites.all (fun w => !(unlocked t).contains w.2) &&
+  t.writerFieldReads.all (fun w => !(unlocked t).contains w.2) &&
   t.unsafeExternalCalls.all (fun c => c.1 == "init") &&
   t.generatorFieldWrites.isEmpty &&
   t.writerStructWrites.isEmpty &&
